@@ -50,6 +50,9 @@ RULE = ('Payloads: sizes {0,1,B-1,B,B+1,3B+7} (B=256 KiB transfer block; thoroug
         'real os._exit kills. Non-trivial: the interrupted call left at least one file of its own in the cache directory, '
         'or a stale file was present, or >=2 faults; distinct by (operation, payload, stale class, fault sequence).')
 RULE += (" Wave-4 additions: every body-read fault is raised as each of OSError, requests ConnectionError/Timeout/ChunkedEncodingError, urllib3 ProtocolError/ReadTimeoutError, http.client.IncompleteRead; fault kind 'stderr broken from its k-th write on'.")
+# Configuration shards (vmon.run): the cases of the plain shard with the given index are run once more in a process started
+# under an environment the library is supposed to be indifferent to.
+CONFIGS = {'quick': [{'name': 'python-O', 'env': {'PYTHONOPTIMIZE': '1'}, 'shard': 0}], 'thorough': [{'name': 'python-O', 'env': {'PYTHONOPTIMIZE': '1'}, 'shard': 0}, {'name': 'python-O-b', 'env': {'PYTHONOPTIMIZE': '1'}, 'shard': 5}]}
 ASSUMPTIONS = [
     'the fake requests.get delivers full blocks and an honest content-length; silent short reads are out of scope',
     'a Crash exception unwinding through `with` blocks plus the kill image read at the fault instant bracket the durable '
